@@ -195,7 +195,8 @@ def gen_signals(rng):
         if x < 0.22 or nsig == 0: out.append("top sigprepare e%d" % rng.randrange(n)); nsig += 1
         elif x < 0.40: out.append("top sigclone a%d" % rng.randrange(nsig))
         elif x < 0.70: out.append("top sigdrop a%d" % rng.randrange(nsig))
-        elif x < 0.85: out.append("top gc")
+        elif x < 0.80: out.append("top gc")
+        elif x < 0.85: out.append("top sigthreads a%d %d" % (rng.randrange(nsig), rng.randint(1, 8)))
         elif x < 0.90: out.append("top wdespawn e%d" % rng.randrange(n))
         elif x < 0.94: out.append("top wdespawnrec e%d" % rng.randrange(n))
         else: out.append("top wsetparent e%d e%d" % (rng.randrange(n), rng.randrange(n)))
@@ -493,6 +494,40 @@ def gen_once2(rng):
     out.append("top frameend")
     return "\n".join(out) + "\n"
 
+def gen_syscall(rng):
+    """C17: sequences of calls over several keys and entry points, nested (direct) calls in exclusive systems and calls
+    made from queued commands, same-key re-entrancy, spawned systems missing / running / despawned.
+    Run-0 scripts only call strictly higher-ranked keys, so re-entrant fresh instances cannot recurse for ever."""
+    out = ["mode syscall"]
+    ranks = [(k, key) for k in "fns" for key in range(3)]
+    def call(min_rank):
+        cand = ranks[min_rank:]
+        if not cand: return None
+        k, key = rng.choice(cand)
+        if k == "s": key = rng.randrange(4)
+        return "%s %d %d" % (k, key, rng.randrange(1, 9))
+    for r, (k, key) in enumerate(ranks):
+        excl = rng.random() < 0.4
+        runs = []
+        for run in range(rng.randint(0, 3)):
+            ops = []
+            for _ in range(rng.randint(0, 2)):
+                x = rng.random()
+                c = call(r + 1 if run == 0 else 0)
+                if c is None or x >= 0.75: ops.append("w %d" % rng.randrange(100))
+                elif x < 0.3 and excl: ops.append("d " + c)
+                else: ops.append("q " + c)
+            runs.append(ops)
+        out.append("scdef %s %d %d %d" % (k, key, 1 if excl else 0, len(runs)))
+        for ops in runs: out.append("run %d" % len(ops)); out += ops
+    for _ in range(rng.randint(1, 3)): out.append("top spawn %d" % rng.randrange(3))
+    for _ in range(rng.randint(3, 10)):
+        x = rng.random()
+        if x < 0.8: out.append("top call " + call(0))
+        elif x < 0.9: out.append("top spawn %d" % rng.randrange(3))
+        else: out.append("top despawn %d" % rng.randrange(4))
+    return "\n".join(out) + "\n"
+
 PROFILES = {
     "mix": lambda rng: gen_mix(rng),
     "big": lambda rng: gen_mix(rng, size=2.0),
@@ -500,6 +535,7 @@ PROFILES = {
     "recursion": lambda rng: gen_mix(rng, size=1.5, body_weights=dict(control=8, trigger=6, register=0.5, life=0.5), weights=dict(control=5, trigger=5)),
     "lifetime": lambda rng: gen_mix(rng, weights=dict(register=4, revoke=4, life=3, trigger=3), body_weights=dict(revoke=2, life=2, register=2)),
     "signals": gen_signals,
+    "syscall": gen_syscall,
     "ewr": gen_ewr,
     "once2": gen_once2,
     "visibility": gen_visibility,
